@@ -48,8 +48,12 @@ func buildUserStream(msg []byte, declLen int) []byte {
 // wrapStreamFor applies the stream send pipeline of a peer configured like n
 // (compression, encryption under the primary key, label header).
 func wrapStreamFor(n *SimNode, body []byte, withLabel bool) []byte {
+	return wrapStreamOpt(n, body, withLabel, true)
+}
+
+func wrapStreamOpt(n *SimNode, body []byte, withLabel, allowCompress bool) []byte {
 	conf := n.conf
-	if conf.EnableCompression {
+	if conf.EnableCompression && allowCompress {
 		if cb, err := compressPayload(body, conf.MsgpackUseNewTimeFormat); err == nil {
 			body = cb.Bytes()
 		}
